@@ -26,6 +26,9 @@ def main():
     if tier not in ('quick', 'thorough'):
         tier = 'quick'
     seed = int(os.environ.get('VERIF_SEED', '0') or 0)
+    # a check must never hang: dump the stack and exit if it runs absurdly long
+    import faulthandler
+    faulthandler.dump_traceback_later(1500 if tier == 'quick' else 6 * 3600, exit=True)
     ctx = lib.Ctx(prop, tier, seed)
     mod = importlib.import_module('props.' + prop.lower())
     if replay:
